@@ -63,7 +63,7 @@ func (g *CFG) Derive(choices []int, maxLen int) []int {
 		steps++
 		rules := g.RulesOf(x)
 		ri := best[x]
-		if ci < len(choices) && steps < 400 {
+		if ci < len(choices) && steps < 4000 {
 			cand := rules[abs(choices[ci])%len(rules)]
 			ci++
 			// only productive alternatives, and keep the length bounded
